@@ -8,6 +8,7 @@ import (
 	"bytes"
 	"encoding/json"
 	"fmt"
+	"github.com/ipld/go-car/v2/index"
 	"hash/fnv"
 	"os"
 	"os/exec"
@@ -451,6 +452,48 @@ func runCliCase(x *cliCtx, sample func(string) bool) {
 
 var cliOnlyFilter bool
 
+// cliBigIndex: `car index` over the archive of 70 000 sections (far more records than any batch the tool may use):
+// the payload is unchanged, the index is the regenerated one, `car verify` and `car inspect --full` accept the output.
+func cliBigIndex(carBin string) (string, string) {
+	file, secs := bigArchive()
+	dir, err := os.MkdirTemp("", "vh-clibig-")
+	if err != nil {
+		return "", ""
+	}
+	defer os.RemoveAll(dir)
+	in, out := filepath.Join(dir, "big.car"), filepath.Join(dir, "big-indexed.car")
+	if err := os.WriteFile(in, file, 0o644); err != nil {
+		return "", ""
+	}
+	if o, err := exec.Command(carBin, "index", in, out).CombinedOutput(); err != nil {
+		return "index/large/failed", fmt.Sprintf("car index on %d sections: %v %s", len(secs), err, strings.TrimSpace(string(o)))
+	}
+	got, _ := os.ReadFile(out)
+	h, err := refParseV2(got)
+	if err != nil {
+		return "index/large/malformed", err.Error()
+	}
+	if !bytes.Equal(h.Payload, file) {
+		return "index/large/payload", "car index changed the payload"
+	}
+	if h.Index == nil {
+		return "index/large/no-index", "no index in the output"
+	}
+	idx, err := index.ReadFrom(bytes.NewReader(h.Index))
+	if err != nil {
+		return "index/large/malformed", "index: " + err.Error()
+	}
+	if m := checkBigIndex(idx, secs); m != "" {
+		return "index/large/incomplete", m
+	}
+	for _, sub := range [][]string{{"verify", out}, {"inspect", "--full", out}} {
+		if o, err := exec.Command(carBin, sub...).CombinedOutput(); err != nil {
+			return "closure/" + sub[0] + "-rejects/index-large", fmt.Sprintf("car %s rejects the output of car index on %d sections: %s", sub[0], len(secs), strings.TrimSpace(string(o)))
+		}
+	}
+	return "", ""
+}
+
 func runCliReplay(args []string) int {
 	in, out, carBin := args[0], args[1], args[2]
 	permille := uint64(1000)
@@ -465,8 +508,26 @@ func runCliReplay(args []string) int {
 		if a == "only=filter" {
 			cliOnlyFilter = true
 		}
+		if a == "only=big" { // just the large-archive case (used for the CLI linked against the released library)
+			rep := newReport("cli")
+			if cls, msg := cliBigIndex(carBin); cls != "" {
+				rep.violate("cli/"+cls, msg, map[string]any{"family": "cli-big", "sections": bigSections})
+			}
+			rep.eval("cli-big-index", true)
+			rep.write(out)
+			if len(rep.ViolClasses) > 0 {
+				return 1
+			}
+			return 0
+		}
 	}
 	rep := newReport("cli")
+	if !cliOnlyFilter {
+		if cls, msg := cliBigIndex(carBin); cls != "" {
+			rep.violate("cli/"+cls, msg, map[string]any{"family": "cli-big", "sections": bigSections})
+		}
+		rep.eval("cli-big-index", true)
+	}
 	jobs := make(chan []byte, 64)
 	var wg sync.WaitGroup
 	base := "/dev/shm"
